@@ -217,6 +217,12 @@ func c35WorkerMain() {
 			b, _ := json.Marshal(c35Stat{ms.HeapAlloc, ms.TotalAlloc, ms.Sys, calls, atomic.LoadInt64(&st.bytesRead),
 				atomic.LoadInt64(&st.accepted), atomic.LoadInt64(&st.open), atomic.LoadInt64(&st.pending), len(svc.connLimiterCh), atomic.LoadInt64(&st.hwm)})
 			say("STAT %s", b)
+		case "CLOSELN":
+			// node shutdown begins: the TCP listener under the mux is closed (rqlited closes it before
+			// the store); give Serve time to notice before the harness goes on
+			base.Close()
+			time.Sleep(300 * time.Millisecond)
+			say("CLOSED")
 		case "QUIT":
 			os.Exit(0)
 		}
@@ -313,6 +319,24 @@ func (w *c35Worker) kill() {
 	}
 	w.stdin.Close()
 	<-w.exited
+}
+
+// closeListener tells the worker to close its listener; false when the worker is dead.
+func (w *c35Worker) closeListener() bool {
+	if w.dead() {
+		return false
+	}
+	if _, err := io.WriteString(w.stdin, "CLOSELN\n"); err != nil {
+		return false
+	}
+	select {
+	case l := <-w.lines:
+		return l == "CLOSED"
+	case <-w.exited:
+		return false
+	case <-time.After(120 * time.Second):
+		return false
+	}
 }
 
 // stat returns nil when the worker is dead.
@@ -566,6 +590,13 @@ func c35Cases(t testing.TB, thorough bool) []c35Case {
 	for _, beh := range behaviours {
 		add("none", -1, "-", 0, true, c35Payload{Name: "nothing-sent"}, beh)
 	}
+	// node shutdown: the connection is accepted by the mux, the node then closes its listener, and only
+	// then the client sends its bytes (the connection is still being demultiplexed at that moment)
+	meta := c35Payload{Name: "GET_NODE_META:nil-request:no-credentials", Bytes: c35Marshal(t, c35Specs()[1], false, false)}
+	add("valid", MuxClusterHeader, "n", uint64(len(meta.Bytes)), false, meta, "listener-closed-before-the-bytes")
+	add("valid", MuxClusterHeader, "n", uint64(len(exec.Bytes)), false, exec, "listener-closed-before-the-bytes")
+	add(fmt.Sprintf("invalid-%d", bad[0]), bad[0], "n", uint64(len(meta.Bytes)), false, meta, "listener-closed-before-the-bytes")
+	add("none", -1, "-", 0, true, c35Payload{Name: "nothing-sent"}, "listener-closed-before-the-bytes")
 	return out
 }
 
@@ -860,6 +891,81 @@ func c35Run(w *c35Worker, c c35Case, expectDrop bool) (o c35Obs, replace bool, f
 	return o, o.Lingering || !o.ProbeOK || o.AllocDelta > c35RetireAlloc, ""
 }
 
+// c35RunShutdown: connect, wait until the mux is blocked reading the header byte, have the node
+// close its listener, then send the bytes, half-close and read to EOF. The node must not die. The
+// worker is always replaced afterwards (it no longer listens).
+func c35RunShutdown(w *c35Worker, c c35Case) (o c35Obs, replace bool, fault string) {
+	o.Sent = len(c.stream)
+	o.ProbeOK = true // no new connection can be made once the listener is closed: liveness is the process
+	before := w.stat(true)
+	if before == nil {
+		return o, true, c35DeadBefore
+	}
+	crashed := func() (c35Obs, bool, string) {
+		select {
+		case <-w.exited:
+		case <-time.After(30 * time.Second):
+			return o, true, "worker unresponsive"
+		}
+		o.Crashed, o.ProbeOK = true, false
+		o.CrashReason, o.CrashWhere = c35CrashInfo(w.stderr())
+		return o, true, ""
+	}
+	conn, err := net.DialTimeout("tcp", w.addr, 10*time.Second)
+	if err != nil {
+		return o, true, "dial: " + err.Error()
+	}
+	defer conn.Close()
+	conn.SetDeadline(time.Now().Add(60 * time.Second))
+	for dl := time.Now().Add(20 * time.Second); ; {
+		cur := w.stat(false)
+		if cur == nil {
+			return crashed()
+		}
+		if cur.Accepted > before.Accepted && cur.Pending >= cur.Open && cur.Open > 0 {
+			break // accepted, and the mux is waiting for the header byte
+		}
+		if time.Now().After(dl) {
+			return o, true, "the mux did not accept the connection"
+		}
+		time.Sleep(200 * time.Microsecond)
+	}
+	if !w.closeListener() {
+		if w.dead() {
+			return crashed()
+		}
+		return o, true, "worker did not close its listener"
+	}
+	if len(c.stream) > 0 {
+		conn.Write(c.stream)
+	}
+	conn.(*net.TCPConn).CloseWrite()
+	raw, _ := io.ReadAll(conn)
+	o.ResponseBytes = len(raw)
+	// a node dying of this runs its deferred calls first and exits a little later
+	select {
+	case <-w.exited:
+		return crashed()
+	case <-time.After(500 * time.Millisecond):
+	}
+	after := w.stat(false)
+	if after == nil {
+		return crashed()
+	}
+	o.ServerRead = after.BytesRead - before.BytesRead
+	o.AllocDelta = after.TotalAlloc - before.TotalAlloc
+	o.HWM = after.HWM - before.HWM
+	for k, v := range after.Calls {
+		if d := v - before.Calls[k]; d != 0 {
+			if o.Calls == nil {
+				o.Calls = map[string]int{}
+			}
+			o.Calls[k] = d
+		}
+	}
+	return o, true, ""
+}
+
 const c35DeadBefore = "worker dead before the case"
 
 type c35Vio struct{ key, what string }
@@ -904,7 +1010,7 @@ func TestVerif_C35(t *testing.T) {
 	r := kit.Start(t, "C35", "bytes")
 	defer r.Finish()
 	thorough := r.Thorough()
-	r.Rule("product: mux header byte {the cluster header, an unregistered byte (thorough: 0,1,3,9,255), none} x 8-byte little-endian length prefix {0, 1, n-1, n, n+1, 2^31, 2^40, 2^63, 2^64-1} (n = bytes that follow) x payload {nothing; garbage of 3, 64, 70000 bytes; for each of the 14 command types and an undefined type: no request / a well-formed request, each with and without credentials; every truncation of a valid EXECUTE message; every byte of it XORed with 01, 80, ff (thorough: all 8 single bits and ff, also for BACKUP_STREAM)} x connection behaviour {close without reading, half-close and read to EOF, stall} applied once the node has dropped the connection or has read everything and is blocked in its next read. Quick tier: the giant prefixes and the prefix 0 (after which the payload itself is read as the next prefix) are combined with 5 representative payloads, truncations/flips with prefixes n-1,n,n+1 and half-close only. Each stream is sent to a worker process running the real tcp.Mux + cluster.Service under RLIMIT_AS; after that the node is left to drop the connection, then a well-formed GET_NODE_META is sent on a new connection. Oracle: the worker process is alive and answers; cumulative allocation during the case (runtime.MemStats.TotalAlloc) and live heap while stalled <= 4 x bytes sent + 16 MiB; mock database/manager calls <= the calls of correctly authorized commands found by a reference reading of the same bytes; when the last complete frame does not decode and the client stalls, the node answers or drops the connection (10 s allowed, against its 30 s idle timeout). distinct = (what the node was doing with the last bytes, behaviour, outcome)")
+	r.Rule("product: mux header byte {the cluster header, an unregistered byte (thorough: 0,1,3,9,255), none} x 8-byte little-endian length prefix {0, 1, n-1, n, n+1, 2^31, 2^40, 2^63, 2^64-1} (n = bytes that follow) x payload {nothing; garbage of 3, 64, 70000 bytes; for each of the 14 command types and an undefined type: no request / a well-formed request, each with and without credentials; every truncation of a valid EXECUTE message; every byte of it XORed with 01, 80, ff (thorough: all 8 single bits and ff, also for BACKUP_STREAM)} x connection behaviour {close without reading, half-close and read to EOF, stall; plus 4 shutdown cases in which the node closes its TCP listener after the mux has accepted the connection and before the client sends its bytes (header valid/invalid/none), the node process having to survive} applied once the node has dropped the connection or has read everything and is blocked in its next read. Quick tier: the giant prefixes and the prefix 0 (after which the payload itself is read as the next prefix) are combined with 5 representative payloads, truncations/flips with prefixes n-1,n,n+1 and half-close only. Each stream is sent to a worker process running the real tcp.Mux + cluster.Service under RLIMIT_AS; after that the node is left to drop the connection, then a well-formed GET_NODE_META is sent on a new connection. Oracle: the worker process is alive and answers; cumulative allocation during the case (runtime.MemStats.TotalAlloc) and live heap while stalled <= 4 x bytes sent + 16 MiB; mock database/manager calls <= the calls of correctly authorized commands found by a reference reading of the same bytes; when the last complete frame does not decode and the client stalls, the node answers or drops the connection (10 s allowed, against its 30 s idle timeout). distinct = (what the node was doing with the last bytes, behaviour, outcome)")
 	r.Assume("worker: real tcp.Mux and cluster.Service, recording mock database and manager, real auth.CredentialsStore holding one user u/p with `all`; a crashed worker is replaced by a fresh one; a worker that allocated more than 256 MiB in a case is retired")
 	r.Assume(fmt.Sprintf("address-space limit of the worker %d GiB: an allocation that does not fit kills the worker the way it would kill a node whose memory is exhausted", c35AddrLimit>>30))
 	r.Assume("commands for which rqlite defines no permission (GET_NODE_META, HIGHWATER_MARK_UPDATE) are not judged for state change; delivered high-water-mark updates are counted in the evidence")
@@ -999,7 +1105,15 @@ func TestVerif_C35(t *testing.T) {
 					}
 					t1 := time.Now()
 					exp := c35Reference(cases[i])
-					o, replace, fault := c35Run(w, cases[i], exp.Last == "undecodable-message")
+					var o c35Obs
+					var replace bool
+					var fault string
+					if cases[i].Behaviour == "listener-closed-before-the-bytes" {
+						exp.Last = "listener-closed-while-demultiplexing:" + exp.Last
+						o, replace, fault = c35RunShutdown(w, cases[i])
+					} else {
+						o, replace, fault = c35Run(w, cases[i], exp.Last == "undecodable-message")
+					}
 					if o.Crashed {
 						crashNs.Add(int64(time.Since(t1)))
 					} else {
